@@ -30,6 +30,10 @@ CLAIMED = {
     text="proof + translator: the list of solver-dictionary keys scanned by the parameter filter is regenerated from /repo on every run and proved to contain update expressions, propagators and initial values, whence (c08_params) a supplied parameter is listed iff any of them refers to it, for every symbol table; the partition gives each state variable to exactly one solver; the numeric update expressions are proved to contain no symbol that is neither a state variable nor a symbol of the user's own right-hand sides. Everything else the property says about the dictionaries (kinds, keys, initial values, symbol closure incl. propagators, configured marker and time-step symbol, parameter values) is checked directly on the returned dictionaries for every accepted generated input x 3 time-step symbols x 3 markers x 4 parameter-block modes.",
     note="Trusted: Coq kernel/vm_compute; translator (fail-closed); harness (independent parse of the returned strings); analytic update/propagator strings come from the SymPy oracle and are covered by the probe only.",
     technique="Coq proof over translated code + direct structural checks of every returned dictionary", ref="5/C08"),
+ "C09": dict(
+    text="proof + translator: Coq theorems (Props/C09.v) over a character-level model of Shape.from_json / _parse_defining_expression / the name checks: for EVERY identifier, order k (not only 0..3), surrounding whitespace and right-hand side without '=', the defining expression parses to (identifier, k); the entry check accepts an entry iff it satisfies the documented format (full two-way decision table c09_accepted_iff), so every well-formed entry of any order is accepted (c09_accepts) and every '='/initial-value inconsistency gives the malformed-input error while name clashes (reserved names regenerated from Shape._sympy_globals) give an error (c09_rejects); a system is accepted iff each entry is. Tie: exhaustive enumeration of corruption kinds x entry positions x initial-value slots x orders 0..3 (+ whitespace/naming variants) — implementation outcome vs the model, decided in Coq, and vs the property text.",
+    note="Trusted: Coq kernel/vm_compute; translator for the reserved names; harness; Python's str/re functions modelled by folds over characters (tied by the exhaustive correspondence); SymPy parsing of right-hand sides outside the structural checks.",
+    technique="Coq proof (string-level parser correctness + decision table) + exhaustive enumeration correspondence", ref="5/C09"),
  "C10": dict(
     text="proof: Coq theorem (Props/C10.v): in any commutative ring with derivations, d/dx_j of the COMPLETE right-hand side sum_k A_ik x_k + b_i + c_i equals A_ij + d_j c_i for every dimension, which is what the model of get_jacobian_matrix assembles; the pinned tree's variant (summing A_ik without x_k) is proved to lose the linear part. Tie: full-system and numeric-sub-system Jacobians of the implementation evaluated exactly at rational points vs the model inside Coq; probes: exact derivative of the user's right-hand side, and numerical_jacobian vs finite differences of MixedIntegrator.step through the pygsl stand-in.",
     note="Trusted: Coq kernel/vm_compute; harness; sympy.diff modelled by a formal derivative (not proved to be a derivation); cython autowrap and GSL (stand-in) not verified; finite-difference half is a test.",
